@@ -15,7 +15,7 @@ import (
 var c09IDs = []string{"a", "b", "c", "d", "e"}
 var c09Types = []sbom.Edge_Type{sbom.Edge_contains, sbom.Edge_dependsOn}
 
-// c09Universe picks the identifier universe and edge types of a case: half use plain letters and two edge types, one
+// c09Universe picks the identifier universe and edge types of a case: a quarter use plain letters and two edge types, a quarter adds the zero-valued edge type, one
 // quarter identifiers that contain a separator character, and one quarter uses identifiers and type numbers that glue together alike ("a1"+"1" == "a"+"11",
 // "a1"+"12" == "a11"+"2"), on which keys built by concatenating source, type and target collide.
 func c09Universe(k int) string {
@@ -32,6 +32,11 @@ func c09Universe(k int) string {
 		return "universe:identifiers-containing-a-separator-character"
 	}
 	c09IDs = []string{"a", "b", "c", "d", "e"}
+	if (k/2)%4 == 2 {
+		// the enumeration's zero value ("unknown") is an edge type like any other
+		c09Types = []sbom.Edge_Type{sbom.Edge_UNKNOWN, sbom.Edge_contains, sbom.Edge_dependsOn}
+		return "universe:edge-types-including-the-zero-value"
+	}
 	c09Types = []sbom.Edge_Type{sbom.Edge_contains, sbom.Edge_dependsOn}
 	return "universe:plain"
 }
@@ -81,7 +86,7 @@ func c09CheckSets(c *core.C, what string, got *sbom.NodeList, ids, roots, triple
 func init() {
 	core.Register(&core.Prop{
 		ID: "C09", Level: "exploration",
-		Rule: "each case draws node lists A,B,C over a 5-id universe and 2 edge types (a quarter of the cases: identifiers and type numbers that concatenate alike, 4 edge types; case parity decides whether ill-formed operands - dangling edges/roots, several edges per source/type, repeated targets - are allowed; " +
+		Rule: "each case draws node lists A,B,C over a 5-id universe and 2 edge types (a quarter of the cases: identifiers and type numbers that concatenate alike, 4 edge types; a quarter: identifiers containing separator characters; a quarter: the zero-valued edge type UNKNOWN among the types; case parity decides whether ill-formed operands - dangling edges/roots, several edges per source/type, repeated targets - are allowed; " +
 			"shared nodes carry reflection-populated attributes, each field independently empty or not). Monitored: Union(A,B) and Add against the set model (ids, roots, edge triples restricted to present nodes), " +
 			"idempotence, commutativity, identity, associativity (where the model itself is associative, i.e. always for well-formed operands), attribute precedence per schema field for every shared node " +
 			"(Union: argument wins when non-empty; Add: receiver wins when non-empty). Operands and every returned result are compared with their snapshots at the end of the case (after sibling unions off the same receiver and an in-place Add onto an earlier result). distinct = hash of canonical (A,B); non-trivial = A and B share at least one node or both have edges.",
